@@ -717,7 +717,7 @@ theorem scanDir_fine (w : World) (ed : EntryDict) (ss : ScanSt) (sys rel : Str) 
           else
             let fpath := pjoin rel mname
             if acc.st.loaded.any (·.1 == fpath) then .ok acc
-            else if !isRegularAt w fpath then .ok acc
+            else if isSpecialAt w fpath then .ok acc
             else match tryLoadUnregistered w acc.st fpath with
               | .error e => .error e
               | .ok (st', true) => .ok { acc with st := st', newManifests := acc.newManifests ++ [fpath] }
